@@ -167,7 +167,7 @@ PROPS["C07"] = {
     "harness": "node", "level": "exploration", "per_proc": 40, "proc_timeout": 900,
     "quick": {"runs": 2500, "budget_s": 300},
     "thorough": {"runs": 60000, "budget_s": 1700, "shrink_runs": 150, "shrink_timeout": 600},
-    "rule": "Each run: a storage node without its network - real tsdb engine (one database, one shard, one family), the real write-ahead-log manager with the partition of this node as leader, its real local replicator loop and the engine's real flush checker - through up to 6 process incarnations on one directory. 9-20 operations out of: append 1-3 messages of 1-3 rows to the log (partition.WriteLog, as the write handler does), request a flush job (database.Flush: metadata -> index -> family data, running concurrently with replication), request and wait, log housekeeping (Sync + GC), let background work run, read back, clean shutdown in the runtime's order (stop log manager, close engine, close log) and start (in a third of the histories the shutdown does not wait for a running flush job - SIGTERM whenever it comes; a shutdown that hangs for two simulated minutes or ends in an unrecovered panic counts as a process death); an entry that is no decodable block (the replicator must skip it without acknowledging anything applied but not yet flushed); a quarter of the histories end with late data of an expired family: memory database time-to-live longer than a day, 26 simulated hours pass (the log manager's hourly housekeeping may destroy the expired partition's log), then the process dies. While an operation runs the process may die at a tape-chosen point: before a file-system operation of any kv store (data family, shard index, metadata), at a function entry of the queue / page / replica / tsdb / memdb / kv / version / index packages (probability x20 at commit / acknowledge / sequence functions), i.e. also between data commit, sequence record and log acknowledgement. After every restart the real recovery runs (WriteAheadLogManager.Recovery, replicator rewinds to ack+1), the harness waits for catch-up and reads every cell back through the real query pipeline. Oracle: every message writes 1 into 1-3 (series, slot) cells of a sum field that no other message touches: a cell of a message whose append returned must read exactly 1 (nothing = lost, 2 = applied twice), a cell of an append in flight at the death 0 or 1, no other cell may exist, the series must carry its own tags; right after recovery the log's acknowledged position must not exceed the sequence stored with the flushed data.",
+    "rule": "Each run: a storage node without its network - real tsdb engine (one database, one shard, one family), the real write-ahead-log manager with the partition of this node as leader, its real local replicator loop and the engine's real flush checker - through up to 6 process incarnations on one directory. 9-20 operations out of: append 1-3 messages of 1-3 rows to the log (partition.WriteLog, as the write handler does), request a flush job (database.Flush: metadata -> index -> family data, running concurrently with replication), request and wait, log housekeeping (Sync + GC), let background work run, read back, clean shutdown in the runtime's order (stop log manager, close engine, close log) and start (in a third of the histories the shutdown does not wait for a running flush job - SIGTERM whenever it comes; a shutdown that hangs for two simulated minutes or ends in an unrecovered panic counts as a process death); an entry that is no decodable block (the replicator must skip it without acknowledging anything applied but not yet flushed); a quarter of the histories end with late data of an expired family: memory database time-to-live longer than a day, 26 simulated hours pass (the log manager's hourly housekeeping may destroy the expired partition's log), then the process dies. While an operation runs the process may die at a tape-chosen point: before a file-system operation of any kv store (data family, shard index, metadata), at a function entry of the queue / page / replica / tsdb / memdb / kv / version / index packages (probability x20 at commit / acknowledge / sequence functions), i.e. also between data commit, sequence record and log acknowledgement. After every restart the real recovery runs (WriteAheadLogManager.Recovery, replicator rewinds to ack+1), the harness waits for catch-up and reads every cell back through the real query pipeline. Oracle: every message writes 1 into 1-3 (series, slot) cells of a sum field that no other message touches: a cell of a message whose append returned must read exactly 1 (nothing = lost, 2 = applied twice), a cell of an append in flight at the death 0 or 1, no other cell may exist, the series must carry its own tags; right after recovery the log's acknowledged position must not exceed the sequence stored with the flushed data. In half of the runs the node also holds the log of another leader of the same family (as after a leader change): a third of the entries arrive there through Partition.ReplicaLog and are applied by that log's own replicator, concurrently with the node's own log; acknowledged position vs. stored sequence is checked per leader.",
     "fault_kinds": ["crash@fs-write", "crash@fs-sync", "crash@queue", "crash@page", "crash@tsdb", "crash@index", "crash@version", "crash@kv", "crash@memdb", "crash@replica", "clean-restart", "flush-request", "log-gc", "family-expired", "undecodable-log-entry", "shutdown-during-flush"],
     "real": NODE_REAL + ["replica (write-ahead-log manager, log, partition, local replicator)", "pkg/queue fan-out queue on mapped pages", "tsdb data flush checker and its workers"],
     "stub": ["rpc transport for the read-back query (loopback)", "no remote replicas, no broker"],
